@@ -38,7 +38,7 @@ pub fn generate(rng: &mut Rng, idx: usize, _tier: Tier) -> CaseOut {
     let coq = if outcomes.is_empty() {
         "3".to_string()
     } else {
-        format!("(check_escape graph_{mname} {cls} [{}])", outcomes.iter().map(|(k, v)| format!("({}, {})", cstr(k), cbool(*v))).collect::<Vec<_>>().join("; "))
+        format!("(check_escape2 graph_{mname} graph_{mname}_top {cls} [{}])", outcomes.iter().map(|(k, v)| format!("({}, {})", cstr(k), cbool(*v))).collect::<Vec<_>>().join("; "))
     };
     CaseOut {
         coq,
